@@ -124,6 +124,16 @@ Theorem c03_filled_corr_in_range : forall row rs,
 Proof. exact filled_corr_in_range. Qed.
 Print Assumptions c03_filled_corr_in_range.
 
+(* on the array tally_votes and aggregate_votes build, the votes of the distinct reference types add up to the
+   iteration count: each iteration casts exactly one vote, so the probabilities of winner and runners-up sum to
+   exactly 1 when every vote getter is listed, and to at most 1 otherwise *)
+Theorem c03_tallied_votes_total : forall owners its,
+  iters_in_range (length owners) its = true ->
+  fold_right Z.add 0 (map (fun t => sum_where owners (fst (tally_corr (length owners) its)) t) (zdistinct owners))
+  = Z.of_nat (length its).
+Proof. exact tallied_votes_total. Qed.
+Print Assumptions c03_tallied_votes_total.
+
 (* non-vacuity: top level single-child (no correlation: 1.0), a voted level (-1/2), a single-child level below it *)
 Example c03_filled_corr_example :
   let row := [Some (trivial_rec 1); Some {| asg := 2; prob := (3, 4); corr := Some (-1, 2); runners := []; agg := one |};
